@@ -4,7 +4,7 @@ CRATE = "c13"
 COQ_DIR = "C13"
 PROFILES = ["debug"]
 CORR_IMPORT = "From RlibV Require Import C13.Model C13.Corr.\nOpen Scope Z_scope."
-AUDIT_IMPORT = "From mathcomp Require Import all_ssreflect.\nFrom RlibV Require Import C13.Model C13.Ghost C13.Properties."
+AUDIT_IMPORT = "From mathcomp Require Import all_ssreflect.\nFrom RlibV Require Import C13.Model C13.Ghost C13.Corr C13.Properties."
 EXPLAIN = "explain"
 AXIOM_ALLOW = []
 THEOREMS = [
@@ -37,6 +37,7 @@ THEOREMS = [
     ("c13_written_once_upto",
      "forall n k : nat, k.+1 < n -> (sieve_upto_g n k).1 = sieve_upto n k /\\ "
      "forall x, nth 0 (sieve_upto_g n k).2 x = (nth 0 (mnp (sieve_upto n k)) x != 0)"),
+    ("c13_model_check_spec_check", "forall c : case, model_check c = true -> spec_check c = true"),
 ]
 SHARD = 160
 SEARCH_MAX = 1000
@@ -122,7 +123,7 @@ def extra(ctx, known):
 
 
 MANIFEST = {
-    "text": "Coq (mathcomp ssreflect, no axioms, 12 pinned) theorems about an executable model of Sieve::new with the "
+    "text": "Coq (mathcomp ssreflect, no axioms, 13 pinned) theorems about an executable model of Sieve::new with the "
             "literal early break and of the factorisation iterator, for EVERY limit N: c13_invariant (state after each "
             "outer step: cells <= i hold pdiv, a cell above i holds pdiv iff it is composite with cofactor <= i and is 0 "
             "otherwise, the prime list is the primes <= i in order), c13_min_prime (= pdiv n for 2 <= n <= N), "
@@ -131,7 +132,10 @@ MANIFEST = {
             "cell i), c13_factorize / c13_factorize_spec (= prime_decomp n: strictly increasing primes with exact "
             "exponents whose product is n; no fuel exhaustion) and c13_factorize_one, c13_written_once / "
             "c13_written_once_upto (ghost counter: every cell 2..N assigned exactly once), c13_all_limits_upto_K "
-            "(independent finite check by computation for every N <= 600). The model is tied to the code on every run: "
+            "(independent finite check by computation for every N <= 600), c13_model_check_spec_check (for every "
+            "correspondence case, no side condition: tables / factorisation lists equal to the model's satisfy the "
+            "model-independent trial-division specification, so model = implementation carries the specification to "
+            "the implementation by proof). The model is tied to the code on every run: "
             "for every limit N up to the bound the executor dumps the full tables and all factorisations and Coq proves "
             "model = implementation and implementation |= trial-division spec.",
     "level_note": "Trusted: Coq kernel + vm_compute; the Rust executor and the Python case printer; integers are nat "
